@@ -8,7 +8,7 @@ from ..deg import DegChecker, TOP
 from ..pat import find_expr, find_stmt, match_expr, match_stmt
 from ..pm import src
 from ..prov import Prov
-from ..q import FA, call_name, guard_facts, walk_no_nested
+from ..q import FA, call_name, guard_facts, ifs_on, nfact, nfacts, walk_no_nested
 from ..resolve import resolver
 
 TECHNIQUE = "R-PROV: symbolic expansion of the property chains behind FlowSampler attributes and result-dictionary keys to canonical access paths, for every configuration of (draw_iid_live, redrawn samples) - finite space, enumerated exhaustively; R-SIB on the INS estimator definition; R-WRITERS on the provenance of every stored logL / logP field"
@@ -89,7 +89,9 @@ def run(ctx):
                 cond = [e for e, t in dpa.guards(dpa.cfg.id_of(a)) if isinstance(e, ast.expr)]
                 taken = None
                 for e, t in dpa.guards(dpa.cfg.id_of(a)):
-                    if isinstance(e, ast.BoolOp):
+                    while isinstance(e, ast.UnaryOp) and isinstance(e.op, ast.Not):
+                        e, t = e.operand, not t
+                    if isinstance(e, ast.BoolOp) and isinstance(e.op, ast.And) and len(e.values) == 2:
                         val = redraw and pv.truth(e.values[1], dps, "self", ins)
                         taken = (val == t)
                 if taken:
@@ -107,11 +109,19 @@ def run(ctx):
     ctx.extra["configurations"] = samples_cfg
     # the two predicates are tied by the constructor: iid_samples is created iff draw_iid_live
     ini = ctx.fn(INS + ".__init__")
-    tie = find_stmt("if self.draw_iid_live:\n    self.iid_samples = OrderedSamples($_a, $_b, $_c)\nelse:\n    self.iid_samples = None", ini.node) or [n for n in walk_no_nested(ini.node) if isinstance(n, ast.If) and src(n.test) == "self.draw_iid_live" and any(isinstance(s, ast.Assign) and src(s.targets[0]) == "self.iid_samples" and isinstance(s.value, ast.Call) for s in n.body) and any(isinstance(s, ast.Assign) and src(s.targets[0]) == "self.iid_samples" and isinstance(s.value, ast.Constant) and s.value.value is None for s in n.orelse)]
+    tie = [1 for _n, then, other in ifs_on(ini.node, "self.draw_iid_live")
+           if any(isinstance(s_, ast.Assign) and src(s_.targets[0]) == "self.iid_samples" and isinstance(s_.value, ast.Call) and call_name(s_.value) == "OrderedSamples" for s_ in then)
+           and any(isinstance(s_, ast.Assign) and src(s_.targets[0]) == "self.iid_samples" and isinstance(s_.value, ast.Constant) and s_.value.value is None for s_ in other)]
     ctx.ob("R-PROV", "C05.1", ini, "iid_samples exists iff draw_iid_live (the two predicates of the configuration space are one)", len(tie) == 1, "")
     fsn = prog.cls(FS).methods["nested_samples"]
-    pvf = [n for n in walk_no_nested(fsn.node) if isinstance(n, ast.If)]
-    ctx.ob("R-PROV", "C05.1", fsn, "FlowSampler.nested_samples prefers the redrawn samples and otherwise the run's samples", len(pvf) == 1 and src(pvf[0].test) == "self._final_samples is not None" and src(pvf[0].body[0].value) == "self._final_samples" and src(pvf[0].orelse[0].value) == "self._nested_samples", "")
+    fsa = FA(fsn)
+    rets_ = {}
+    for nid_, r_ in fsa.returns():
+        rets_.setdefault(src(r_.value) if r_.value is not None else None, []).append(set(nfacts(guard_facts(fsa, nid_))))
+    want_ = nfact("self._final_samples is not None")
+    okpv = set(rets_) == {"self._final_samples", "self._nested_samples"} and all(len(v) == 1 for v in rets_.values()) \
+        and rets_["self._final_samples"][0] == {want_} and rets_["self._nested_samples"][0] == {nfact("self._final_samples is not None", False)}
+    ctx.ob("R-PROV", "C05.1", fsn, "FlowSampler.nested_samples prefers the redrawn samples and otherwise the run's samples", okpv, "")
 
     # ---- C05.1 provenance: standard sampler ------------------------------------------
     ns_dict_f = ctx.fn(NS + ".get_result_dictionary")
